@@ -110,7 +110,9 @@ func (m *multiIterator) Next() bool {
 
 	k1, _ := m.front.Peek()
 	k2, _ := m.back.Peek()
-	ret := compareBytes(k1, k2)
+	// both sides have a row here (HasNext above), and a row under the empty key comes
+	// back from storage with a nil key: it is a key like any other, not "exhausted"
+	ret := bytes.Compare(k1, k2)
 	switch ret {
 	case 0:
 		m.key, m.value = m.front.Next()
